@@ -41,8 +41,51 @@ type Cron struct {
 	location  *time.Location
 	parser    ScheduleParser
 	nextID    EntryID
-	jobWaiter sync.WaitGroup
+	jobWaiter jobWaiter
 	clk       clock.Clock
+}
+
+// jobWaiter counts the running jobs. Unlike a sync.WaitGroup it may be waited
+// on while jobs keep being started: after Stop and a restart the scheduler
+// starts jobs (the counter leaves zero) concurrently with the goroutines of
+// earlier Stop calls that still wait, which a WaitGroup does not allow ("Add
+// with a positive delta when the counter is zero must happen before a Wait";
+// it panics with "WaitGroup is reused before previous Wait has returned").
+type jobWaiter struct {
+	mu      sync.Mutex
+	running int
+	idle    chan struct{} // non-nil while somebody waits; closed when running drops to zero
+}
+
+func (w *jobWaiter) Add() {
+	w.mu.Lock()
+	w.running++
+	w.mu.Unlock()
+}
+
+func (w *jobWaiter) Done() {
+	w.mu.Lock()
+	w.running--
+	if w.running == 0 && w.idle != nil {
+		close(w.idle)
+		w.idle = nil
+	}
+	w.mu.Unlock()
+}
+
+// Idle returns a channel that is closed once no job is running.
+func (w *jobWaiter) Idle() <-chan struct{} {
+	w.mu.Lock()
+	defer w.mu.Unlock()
+	if w.running == 0 {
+		ch := make(chan struct{})
+		close(ch)
+		return ch
+	}
+	if w.idle == nil {
+		w.idle = make(chan struct{})
+	}
+	return w.idle
 }
 
 // ScheduleParser is an interface for schedule spec parsers that return a Schedule
@@ -341,7 +384,7 @@ func (c *Cron) run() {
 
 // startJob runs the given job in a new goroutine.
 func (c *Cron) startJob(j Job) {
-	c.jobWaiter.Add(1)
+	c.jobWaiter.Add()
 	go func() {
 		defer c.jobWaiter.Done()
 		j.Run()
@@ -363,8 +406,9 @@ func (c *Cron) Stop() context.Context {
 		c.running = false
 	}
 	ctx, cancel := context.WithCancel(context.Background())
+	idle := c.jobWaiter.Idle()
 	go func() {
-		c.jobWaiter.Wait()
+		<-idle
 		cancel()
 	}()
 	return ctx
